@@ -597,3 +597,8 @@ Definition interp_root_diag (R : Z -> Z -> Z) (rk : nat) (li lv ri rv : list Z) 
   zsum_upto rk (fun k => left_interp_row R li lv k * left_interp_row R ri rv k).
 (* RootLinearOperator._get_indices: (root[row, :] * root[col, :]).sum(-1) *)
 Definition root_get_indices (R : Z -> Z -> Z) (rk : nat) (r c : Z) : Z := zsum_upto rk (fun k => R r k * R c k).
+
+(* --- MatmulLinearOperator._get_indices: (left[row, :] * right[:, col]).sum(-1), inner dimension of size k *)
+Definition matmul_get_indices (L R : Z -> Z -> Z) (k : nat) (r c : Z) : Z := zsum_upto k (fun j => L r j * R j c).
+(* --- SumBatchLinearOperator._get_indices: base._get_indices(row, col, *batch, block_index).sum(-1) over nb blocks *)
+Definition sumbatch_get_indices (base : Z -> Z -> Z -> Z) (nb : nat) (r c : Z) : Z := zsum_upto nb (fun b => base b r c).
